@@ -6,6 +6,7 @@ import Ymq.Props.C03Qs64
 #print axioms Ymq.C03Qs64.qs64_proper
 #print axioms Ymq.C03Qs64.qs64_improper_when_n_eq_k
 #print axioms Ymq.C03Qs64.admissible_not_square
+#print axioms Ymq.C03Qs64.admissible_of_guards
 #print axioms Ymq.C03Qs64.qs64_no_panic_of_nonsquare
 #print axioms Ymq.C03Qs64.qs64_no_panic
 #print axioms Ymq.C03Qs64.qs64_square_nk_counterexample
